@@ -35,10 +35,10 @@ func C10opening(p *load.Program, run *report.Run) {
 		var vecParams []string
 		for _, f := range fd.Type.Params.List {
 			for _, n := range f.Names {
-				vecParams = append(vecParams, n.Name)
+				vecParams = append(vecParams, cx(n))
 			}
 		}
-		recv := fd.Recv.List[0].Names[0].Name
+		recv := cx(fd.Recv.List[0].Names[0])
 		bad := ""
 		cells := 0
 		for _, n := range partyCounts() {
